@@ -250,7 +250,17 @@ func genBinOps(atoms []logql.Expr) []logql.Expr {
 	}
 	// operators of different precedence without parentheses: the tighter one groups first on either side
 	x, y, z := atoms[0], atoms[1%len(atoms)], atoms[2%len(atoms)]
-	mix := [][2]logql.BinOp{{logql.OpAdd, logql.OpMul}, {logql.OpSub, logql.OpPow}, {logql.OpGt, logql.OpAdd}, {logql.OpOr, logql.OpAnd}, {logql.OpAnd, logql.OpEq}, {logql.OpMul, logql.OpPow}, {logql.OpOr, logql.OpDiv}, {logql.OpUnless, logql.OpLte}}
+	// every pair of operators of different precedence levels (or < and, unless < comparisons < + - < * / % < ^)
+	level := map[logql.BinOp]int{logql.OpOr: 1, logql.OpAnd: 2, logql.OpUnless: 2, logql.OpEq: 3, logql.OpNotEq: 3, logql.OpGt: 3, logql.OpGte: 3, logql.OpLt: 3, logql.OpLte: 3,
+		logql.OpAdd: 4, logql.OpSub: 4, logql.OpMul: 5, logql.OpDiv: 5, logql.OpMod: 5, logql.OpPow: 6}
+	var mix [][2]logql.BinOp
+	for _, lo := range allBinOps {
+		for _, hi := range allBinOps {
+			if level[lo] < level[hi] {
+				mix = append(mix, [2]logql.BinOp{lo, hi})
+			}
+		}
+	}
 	for _, m := range mix {
 		lo, hi := m[0], m[1]
 		out = append(out, &logql.BinOpExpr{Left: x, Op: lo, Right: &logql.BinOpExpr{Left: y, Op: hi, Right: z}}) // x lo y hi z
@@ -647,7 +657,7 @@ func c05Run(r *vkit.Run) {
 		base := c05Input{Index: i, Tier: tier}
 		// six layouts + printer options
 		variants := []c05Input{}
-		for style := 0; style <= 5; style++ {
+		for style := 0; style <= 7; style++ {
 			v := base
 			v.Style = style
 			variants = append(variants, v)
@@ -695,7 +705,7 @@ func c05Run(r *vkit.Run) {
 	}
 	r.Count("corruptions_generated", corruptions)
 	r.Count("negative_cases_that_must_be_rejected", mustRejected)
-	r.Note("bounds", fmt.Sprintf("%d generated ASTs (all stage kinds with 2-5 argument variants, pipelines of <=%d stages, 18 range-function variants x unwrap forms x groupings x offsets x [range] positions, vector aggregations incl. nested, binary operators x modifiers, label_replace, literals) x up to 12 textual renderings (6 layouts, redundant parentheses, range position, grouping position, and/,/juxtaposition); %d static-rule violations; every single-token corruption (delete, duplicate, swap, stray bracket, split operator, quoted label name) of %s corpus queries", len(cp), map[bool]int{false: 2, true: 3}[thorough], len(c05Static), map[bool]string{false: "a fifth of the", true: "all"}[thorough]))
+	r.Note("bounds", fmt.Sprintf("%d generated ASTs (all stage kinds with 2-5 argument variants, pipelines of <=%d stages, 18 range-function variants x unwrap forms x groupings x offsets x [range] positions, vector aggregations incl. nested, binary operators x modifiers, label_replace, literals) x up to 14 textual renderings (8 layouts, redundant parentheses, range position, grouping position, and/,/juxtaposition); %d static-rule violations; every single-token corruption (delete, duplicate, swap, stray bracket, split operator, quoted label name) of %s corpus queries", len(cp), map[bool]int{false: 2, true: 3}[thorough], len(c05Static), map[bool]string{false: "a fifth of the", true: "all"}[thorough]))
 }
 
 func c05Replay(r *vkit.Run, v vkit.Violation) *vkit.Violation {
